@@ -369,4 +369,30 @@ example : ∃ s, Reach intMin s ∧ s.h.n = 3 := by
   obtain ⟨s, hs, hn⟩ := h
   exact ⟨s, runDemo_reach intMin demoOps St.init s Reach.init hs, hn⟩
 
+-- [audit] non-vacuity: the hypotheses `Inv h` (via `Reach`), `peek … = .ok …` and `pop … = .ok …` of `peek_is_min` /
+-- `pop_is_min` hold together on the demo state (min-heap); the live items are listed explicitly.
+-- (Cross-checked against the real `FibonacciHeap`: same dump `0:0/1^-[4:5/0^0[]],1:1/0^-[]|0|3`.)
+example : ∃ s, Reach intMin s ∧ (peek intMin s.h).toOption.map (·.2) = some 0 ∧ (pop intMin s.h).toOption.map (·.2) = some 0
+    ∧ live s.h = [(0, 0), (4, 5), (1, 1)] := by
+  have h : ∃ s, runDemo intMin demoOps St.init = some s ∧ ((peek intMin s.h).toOption.map (·.2) = some 0 ∧
+      (pop intMin s.h).toOption.map (·.2) = some 0 ∧ live s.h = [(0, 0), (4, 5), (1, 1)]) := by decide +kernel
+  obtain ⟨s, hs, hp⟩ := h
+  exact ⟨s, runDemo_reach intMin demoOps St.init s Reach.init hs, hp⟩
+
+-- [audit] non-vacuity for the max-heap twins (`Reach intMax`, `pop_is_max_int`, `peek_is_max_int`): push, pop, a
+-- successful `decrease_key` (0 → 3 is a decrease for `ReversedComparator`), remove of a root, and a rejected
+-- `decrease_key` (ValueError, state kept).  Real `MaxFibonacciHeap` gives the same dump `4:5/1^-[0:3/0^4[]],1:2/0^-[]|4|3`.
+example : ∃ s, Reach intMax s ∧ (peek intMax s.h).toOption.map (·.2) = some 4 ∧ (pop intMax s.h).toOption.map (·.2) = some 4
+    ∧ live s.h = [(4, 5), (0, 3), (1, 2)] := by
+  have h : ∃ s, runDemo intMax [.push 0, .push 2, .push 1, .push 3, .pop, .dec 0 3, .push 5, .rem 2, .dec 1 1] St.init = some s ∧
+      ((peek intMax s.h).toOption.map (·.2) = some 4 ∧
+      (pop intMax s.h).toOption.map (·.2) = some 4 ∧ live s.h = [(4, 5), (0, 3), (1, 2)]) := by decide +kernel
+  obtain ⟨s, hs, hp⟩ := h
+  exact ⟨s, runDemo_reach intMax _ St.init s Reach.init hs, hp⟩
+
+-- [audit] `size_eq_live` is the field `Inv.size` re-expressed: `live` is DEFINED as the content of the model's own
+-- forest, so this theorem alone does not relate `len(heap)` to the history of pushes/pops/removes; that link is only
+-- given op by op by `Heap.push_spec / pop_spec / remove_spec / decreaseKey_spec` (multiset deltas).
+example {cmp : Cmp K} {h : Heap K} (hI : Inv cmp h) : h.n = (flats h.roots).length := hI.size
+
 end GtModel.C16
